@@ -368,7 +368,7 @@ fn outcome_of(r: &Result<u64, RpcError>) -> Outcome {
     }
 }
 
-pub fn chan_err_name<E>(e: &tarpc::ChannelError<E>) -> &'static str {
+pub fn chan_err_name<E: ?Sized>(e: &tarpc::ChannelError<E>) -> &'static str {
     match e {
         tarpc::ChannelError::Read(_) => "Read",
         tarpc::ChannelError::Ready(_) => "Ready",
